@@ -1,2 +1,5 @@
 from p_pool import Pool, make
-PLUGIN = make("C05")
+from p_conn import with_conn
+
+# pool histories (M-POOL) + the real HttpConnection against the PoolableConnection contract (M-CONN)
+PLUGIN = with_conn(make("C05"))
